@@ -107,5 +107,29 @@ pub trait ShimTreeToString { fn shim_to_string(&self) -> (r: String); }
 impl ShimTreeToString for TokenTree {
     #[verifier::external_body] fn shim_to_string(&self) -> (r: String) ensures r@ == tree_text(self) { self.to_string() }
 }
+// `to_string` of the four kinds of tree: the text of the tree that holds them (so that code which looks INTO a token and then
+// prints something else for it can be judged against canon_upto, which prints `tree_text` for every tree that is not a group)
+impl ShimTreeToString for proc_macro2::Literal {
+    #[verifier::external_body] fn shim_to_string(&self) -> (r: String) ensures r@ == tree_text(&TokenTree::Literal(*self)) { self.to_string() }
+}
+impl ShimTreeToString for proc_macro2::Ident {
+    #[verifier::external_body] fn shim_to_string(&self) -> (r: String) ensures r@ == tree_text(&TokenTree::Ident(*self)) { self.to_string() }
+}
+impl ShimTreeToString for Punct {
+    #[verifier::external_body] fn shim_to_string(&self) -> (r: String) ensures r@ == tree_text(&TokenTree::Punct(*self)) { self.to_string() }
+}
+// str::starts_with / ends_with are generic over the unstable Pattern trait: stand-ins with an uninterpreted meaning
+pub uninterp spec fn text_has(s: Seq<char>, pat: Seq<char>, end: int) -> bool;
+pub trait CanonPat { spec fn cpat(&self) -> Seq<char>; }
+impl CanonPat for char { open spec fn cpat(&self) -> Seq<char> { seq![*self] } }
+impl<'a> CanonPat for &'a str { open spec fn cpat(&self) -> Seq<char> { self@ } }
+pub trait ShimCanonStr {
+    fn shim_starts_with<P: CanonPat>(&self, p: P) -> (r: bool);
+    fn shim_ends_with<P: CanonPat>(&self, p: P) -> (r: bool);
+}
+impl ShimCanonStr for str {
+    #[verifier::external_body] fn shim_starts_with<P: CanonPat>(&self, p: P) -> (r: bool) ensures r == text_has(self@, p.cpat(), 0) { unimplemented!() }
+    #[verifier::external_body] fn shim_ends_with<P: CanonPat>(&self, p: P) -> (r: bool) ensures r == text_has(self@, p.cpat(), 1) { unimplemented!() }
+}
 
 } // verus!
